@@ -212,7 +212,7 @@ def tlc(spec_dir, module, cfg, workers=None, env=None, timeout=1800, extra=(), h
     gc = ["-XX:+UseSerialGC"] if nw == 1 else ["-XX:+UseParallelGC", "-XX:ParallelGCThreads=%d" % max(2, min(8, nw))]
     cmd = ["java"] + gc + ["-XX:TieredStopAtLevel=1" if nw == 1 else "-XX:+TieredCompilation", "-Xmx" + heap,
            "-DTLA-Library=" + libs, "-cp", JAR, "tlc2.TLC",
-           "-metadir", meta, "-workers", str(nw), "-config", cfg]
+           "-metadir", meta, "-workers", str(nw), "-noGenerateSpecTE", "-config", cfg]
     if coverage:
         cmd += ["-coverage", "1"]
     cmd += list(extra) + [module + ".tla"]
